@@ -22,6 +22,7 @@ func init() {
 			"R06.1 also: the gate is skipped only when HasBody answered false (or an earlier stage refused the request), in both entry points. " +
 			"R06.3 also: the matched route (whose Consumer the gate fills once) is allocated per lookup. " +
 			"R06.3 also: MatchedRoute.Consumer is written by the content-type gates only (or as route.Consumers[parsed media type]). " +
+			"R06.4 also: each entry of the per-route consumer table is consumers[that media type]; R06.3 also: the type/* entry is consulted only for values of the shape type/subtype. " +
 			"NOT decided: which header strings mime.ParseMediaType accepts; what a consumer does with the bytes.",
 		Assumptions: []string{"mime.ParseMediaType lower-cases the media type and strips parameters as documented", "swag.ContainsStringsCI is a case-insensitive membership test"},
 		Run:         runC06,
